@@ -826,7 +826,8 @@ where
                 .copy_from_slice(&new_cell.full_data());
             *old_cell.metadata_mut() = *new_cell.metadata();
 
-            self.free_space_pointer_down(free_bytes);
+            // The cell stays where it is, so the bytes gained lie behind it, not at the free
+            // space pointer: they are only counted and are reclaimed by the next defragmentation.
             self.add_free_space(free_bytes);
 
             return Ok(owned_cell);
